@@ -562,7 +562,7 @@ def work(args):
     res = dict(heads=[r for r in rows if "mode" in r], crashes=[], fails=[], bad=[], n_traces=0, n_valid=0,
                n_nontrivial=0, samples=[], replays=0, vocab=[])
     if rc != 0:
-        res["crashes"].append((rc, (err or out)[-800:]))
+        res["crashes"].append((rc, (out[-700:] + "\n" + (err or "")[-500:])))
     traces = [r for r in rows if "trace" in r]
     res["n_traces"] = len(traces)
     best = {}
@@ -604,7 +604,12 @@ def work(args):
     for mach, tr in jobs:
         body.append("Eval vm_compute in (%s (%s))." % (RUNNER[mach], tr.emit()))
     plan = jobs
-    ok, cout = vlib.coqc_eval("\n".join(body) + "\n", "c18_%d_%s" % (os.getpid(), tag), timeout=1700)
+    case = "c18_%d_%s" % (os.getpid(), tag)
+    ok, cout = vlib.coqc_eval("\n".join(body) + "\n", case, timeout=1700)
+    try:
+        os.remove(os.path.join(vlib.COQ, "cases", case + ".v"))
+    except OSError:
+        pass
     blocks = re.findall(r"=\s*(\[.*?\])\s*:\s*list \(list nat\)", cout.replace("\n", " "))
     if not ok or len(blocks) != len(plan):
         res["bad"].append(dict(scenario=names[0], kind="replay", why="Coq evaluation failed: " + cout[-1500:], trace="", choices=""))
@@ -641,8 +646,11 @@ def work(args):
     return res
 
 
+JOBS = max(1, int(os.environ.get("VERIF_JOBS", "4")))   # the machine is shared: four workers unless told otherwise
+
+
 def run_set(exe, mode, extra, names, tag, do_corr=True):
-    n = max(1, min(vlib.NPROC, (len(names) + 3) // 4))
+    n = max(1, min(JOBS, vlib.NPROC, (len(names) + 3) // 4))
     slices = [names[i::n] for i in range(n)]
     with concurrent.futures.ProcessPoolExecutor(max_workers=n) as ex:
         return list(ex.map(work, [(exe, mode, extra, sl, "%s%d" % (tag, i), do_corr) for i, sl in enumerate(slices)]))
@@ -707,9 +715,10 @@ def main(ck):
         tot["scenarios"] += len(hs)
         for r in results:
             for rc, txt in r["crashes"]:
-                m = re.search(r"CRASH signal=(\d+) choices=([\d,]*)", txt)
-                ck.hits.append(dict(what="harness crashed (rc=%d) %s" % (rc, txt), key="crash",
-                                    replay=dict(harness="h_c18", choices=m.group(2) if m else None)))
+                m = re.search(r"CRASH signal=(\d+) choices=([\d,]*)(?: scenario=(\S+))?", txt)
+                ck.hits.append(dict(what="harness crashed or hung (rc=%d) %s" % (rc, txt.strip()[-400:]), key="crash",
+                                    replay=dict(harness="h_c18", scenario=m.group(3) if m else None,
+                                                choices=m.group(2).rstrip(",") if m else None)))
             for t in r["fails"]:
                 k = fail_key(t["scenario"], t["fail"])
                 if k not in fails or len(t["choices"]) < len(fails[k]["choices"]):
